@@ -5,6 +5,7 @@ import (
 	"go/token"
 	"reflect"
 	"strings"
+	"sync"
 
 	"github.com/ipfs/go-cid"
 	"github.com/ipld/go-ipld-prime/datamodel"
@@ -414,31 +415,79 @@ func init() {
 // has them, and test that that works as expected
 
 // inferSchema can build a schema from a Go type
+// inferredSchemas remembers the schema type inferred for each Go type,
+// so that binding the same Go type again (Wrap, Prototype, Marshal, Unmarshal with a nil schema)
+// gives the same result instead of declaring its named types a second time.
+var (
+	inferMu         sync.Mutex
+	inferredSchemas = make(map[reflect.Type]schema.Type)
+)
+
+// inferSchema infers a schema type from a Go type.
+//
+// Every inference declares its named types in a type system of its own,
+// which nothing writes to once the inference is done;
+// the result is memoized per Go type.
+// So inference can be repeated, and used from several goroutines.
 func inferSchema(typ reflect.Type, level int) schema.Type {
+	inferMu.Lock()
+	defer inferMu.Unlock()
+	if schemaType, ok := inferredSchemas[typ]; ok {
+		return schemaType
+	}
+	inf := &schemaInference{seen: make(map[reflect.Type]schema.Type)}
+	inf.ts.Init()
+	inf.tBool = schema.SpawnBool("Bool")
+	inf.tInt = schema.SpawnInt("Int")
+	inf.tFloat = schema.SpawnFloat("Float")
+	inf.tString = schema.SpawnString("String")
+	inf.tBytes = schema.SpawnBytes("Bytes")
+	inf.tLink = schema.SpawnLink("Link")
+	inf.tAny = schema.SpawnAny("Any")
+	for _, t := range []schema.Type{inf.tBool, inf.tInt, inf.tFloat, inf.tString, inf.tBytes, inf.tLink, inf.tAny} {
+		inf.ts.Accumulate(t)
+	}
+	schemaType := inf.infer(typ, level)
+	inferredSchemas[typ] = schemaType
+	return schemaType
+}
+
+// schemaInference is the state of one run of inferSchema.
+type schemaInference struct {
+	ts   schema.TypeSystem
+	seen map[reflect.Type]schema.Type // named types already declared in ts during this run
+
+	tBool, tInt, tFloat, tString, tBytes, tLink, tAny schema.Type
+}
+
+func (inf *schemaInference) infer(typ reflect.Type, level int) schema.Type {
 	if level > maxRecursionLevel {
 		panic(fmt.Sprintf("inferSchema: refusing to recurse past %d levels", maxRecursionLevel))
 	}
 	switch typ.Kind() {
 	case reflect.Bool:
-		return schemaTypeBool
+		return inf.tBool
 	case reflect.Int64:
-		return schemaTypeInt
+		return inf.tInt
 	case reflect.Float64:
-		return schemaTypeFloat
+		return inf.tFloat
 	case reflect.String:
-		return schemaTypeString
+		return inf.tString
 	case reflect.Struct:
 		// these types must match exactly since we need symmetry of being able to
 		// get the values an also assign values to them
 		if typ == goTypeCid || typ == goTypeCidLink {
-			return schemaTypeLink
+			return inf.tLink
+		}
+		if schemaType, ok := inf.seen[typ]; ok {
+			return schemaType
 		}
 
 		fieldsSchema := make([]schema.StructField, typ.NumField())
 		for i := range fieldsSchema {
 			field := typ.Field(i)
 			ftyp := field.Type
-			ftypSchema := inferSchema(ftyp, level+1)
+			ftypSchema := inf.infer(ftyp, level+1)
 			fieldsSchema[i] = schema.SpawnStructField(
 				field.Name, // TODO: allow configuring the name with tags
 				ftypSchema.Name(),
@@ -453,34 +502,39 @@ func inferSchema(typ reflect.Type, level int) schema.Type {
 			panic("TODO: anonymous composite types")
 		}
 		typSchema := schema.SpawnStruct(name, fieldsSchema, nil)
-		defaultTypeSystem.Accumulate(typSchema)
+		inf.ts.Accumulate(typSchema)
+		inf.seen[typ] = typSchema
 		return typSchema
 	case reflect.Slice:
 		if typ.Elem().Kind() == reflect.Uint8 {
 			// Special case for []byte.
-			return schemaTypeBytes
+			return inf.tBytes
+		}
+		if schemaType, ok := inf.seen[typ]; ok {
+			return schemaType
 		}
 
 		nullable := false
 		if typ.Elem().Kind() == reflect.Ptr {
 			nullable = true
 		}
-		etypSchema := inferSchema(typ.Elem(), level+1)
+		etypSchema := inf.infer(typ.Elem(), level+1)
 		name := typ.Name()
 		if name == "" {
 			name = "List_" + etypSchema.Name()
 		}
 		typSchema := schema.SpawnList(name, etypSchema.Name(), nullable)
-		defaultTypeSystem.Accumulate(typSchema)
+		inf.ts.Accumulate(typSchema)
+		inf.seen[typ] = typSchema
 		return typSchema
 	case reflect.Interface:
 		// these types must match exactly since we need symmetry of being able to
 		// get the values an also assign values to them
 		if typ == goTypeLink {
-			return schemaTypeLink
+			return inf.tLink
 		}
 		if typ == goTypeNode {
-			return schemaTypeAny
+			return inf.tAny
 		}
 		panic("bindnode: unable to infer from interface")
 	}
